@@ -246,6 +246,7 @@ def check(pid, tier, seed, update_lock=False):
             # a failing concrete input found by the stand-in for this property is the replay
             if violations and any(v[0] == 'bounded' for v in violations):
                 notes.append(f'obligation {name} refuted; concrete failing input supplied by the stand-in')
+                print(f'REFUTED property={pid} obligation={name} backend={o.get("backend")} (failing input: see the VIOLATION lines of the stand-in)')
                 continue
             if o.get('exact', True) and (name in lock or not lock):
                 violations.append(('obligation', o))
